@@ -3,6 +3,7 @@ package numchk
 
 import (
 	"fmt"
+	"math"
 	"math/big"
 	"sort"
 
@@ -17,14 +18,14 @@ type Reporter interface {
 }
 
 var (
-	one     = big.NewInt(1)
-	two     = big.NewInt(2)
-	prec    = new(big.Int).Exp(big.NewInt(10), big.NewInt(18), nil)
-	prec2   = new(big.Int).Mul(prec, prec)
-	half    = new(big.Int).Quo(prec, two)
-	pow255  = new(big.Int).Lsh(one, 255)
-	pow256  = new(big.Int).Lsh(one, 256)
-	pow315  = new(big.Int).Lsh(one, 315)
+	one    = big.NewInt(1)
+	two    = big.NewInt(2)
+	prec   = new(big.Int).Exp(big.NewInt(10), big.NewInt(18), nil)
+	prec2  = new(big.Int).Mul(prec, prec)
+	half   = new(big.Int).Quo(prec, two)
+	pow255 = new(big.Int).Lsh(one, 255)
+	pow256 = new(big.Int).Lsh(one, 256)
+	pow315 = new(big.Int).Lsh(one, 315)
 )
 
 func catch(fn func()) (p interface{}) {
@@ -116,20 +117,38 @@ func CheckInt(r *sim.Rand, rep Reporter) {
 		}},
 		{"Neg", func() sdk.Int { return ia.Neg() }, func() *big.Int { return new(big.Int).Neg(a) }},
 	}
+	// the int64-argument variants, with the int64 bounds among the arguments
+	raw := []int64{math.MinInt64, math.MinInt64 + 1, -1, 0, 1, math.MaxInt64, int64(r.U64()), int64(r.U64() >> uint(r.Intn(63)))}[r.Intn(8)]
+	braw := big.NewInt(raw)
+	ops = append(ops,
+		bin{"AddRaw", func() sdk.Int { return ia.AddRaw(raw) }, func() *big.Int { return inRange(new(big.Int).Add(a, braw)) }},
+		bin{"SubRaw", func() sdk.Int { return ia.SubRaw(raw) }, func() *big.Int { return inRange(new(big.Int).Sub(a, braw)) }},
+		bin{"MulRaw", func() sdk.Int { return ia.MulRaw(raw) }, func() *big.Int { return inRange(new(big.Int).Mul(a, braw)) }},
+		bin{"QuoRaw", func() sdk.Int { return ia.QuoRaw(raw) }, func() *big.Int {
+			if raw == 0 {
+				return nil
+			}
+			return new(big.Int).Quo(a, braw)
+		}},
+	)
 	o := ops[r.Intn(len(ops))]
+	argB := b // the second operand as shown in messages
+	if len(o.name) > 3 && o.name[3:] == "Raw" {
+		argB = braw
+	}
 	var got sdk.Int
 	p := catch(func() { got = o.fn() })
 	want := o.ref()
 	rep.Count("c18.int."+o.name, 1)
 	switch {
 	case want == nil && p == nil:
-		rep.Violate("C18", "int-no-panic/"+o.name, fmt.Sprintf("Int.%s(%v, %v) = %v: out of range / undefined but did not panic", o.name, a, b, got))
+		rep.Violate("C18", "int-no-panic/"+o.name, fmt.Sprintf("Int.%s(%v, %v) = %v: out of range / undefined but did not panic", o.name, a, argB, got))
 	case want == nil:
 		rep.Count("c18.int.expected_panics", 1)
 	case p != nil:
-		rep.Violate("C18", "int-unexpected-panic/"+o.name, fmt.Sprintf("Int.%s(%v, %v) panicked (%v); exact result %v is representable", o.name, a, b, p, want))
+		rep.Violate("C18", "int-unexpected-panic/"+o.name, fmt.Sprintf("Int.%s(%v, %v) panicked (%v); exact result %v is representable", o.name, a, argB, p, want))
 	case got.BigInt().Cmp(want) != 0:
-		rep.Violate("C18", "int-wrong/"+o.name, fmt.Sprintf("Int.%s(%v, %v) = %v, exact %v", o.name, a, b, got, want))
+		rep.Violate("C18", "int-wrong/"+o.name, fmt.Sprintf("Int.%s(%v, %v) = %v, exact %v", o.name, a, argB, got, want))
 	}
 	if o.name == "Quo" || r.Chance(10) {
 		// Mod: non-negative remainder smaller than |b|, congruent to a
@@ -152,6 +171,34 @@ func CheckInt(r *sim.Rand, rep Reporter) {
 	after := snap(ia.BigInt(), ib.BigInt())
 	if before[0] != after[0] || before[1] != after[1] || a.String() != before[0] || b.String() != before[1] {
 		rep.Violate("C18", "operand-mutated/Int."+o.name, fmt.Sprintf("operands changed by Int.%s: %v -> %v", o.name, before, after))
+	}
+	// conversions: Int64 is defined exactly on the int64 range and panics outside
+	if r.Chance(10) {
+		x := new(big.Int).Add(new(big.Int).Lsh(one, 63), big.NewInt(int64(r.Intn(5)-2))) // 2^63-2 .. 2^63+2
+		if r.Bool() {
+			x.Neg(x)
+		}
+		if r.Chance(30) {
+			x = a
+		}
+		ix := sdk.NewIntFromBigInt(x)
+		fits := x.IsInt64()
+		if ix.IsInt64() != fits {
+			rep.Violate("C18", "int-wrong/IsInt64", fmt.Sprintf("Int(%v).IsInt64() = %v", x, ix.IsInt64()))
+		}
+		var v int64
+		pp := catch(func() { v = ix.Int64() })
+		if fits && (pp != nil || v != x.Int64()) {
+			rep.Violate("C18", "int-wrong/Int64", fmt.Sprintf("Int(%v).Int64() = %d (panic %v)", x, v, pp))
+		} else if !fits && pp == nil {
+			rep.Violate("C18", "int-no-panic/Int64", fmt.Sprintf("Int(%v).Int64() = %d: does not fit an int64 but did not panic", x, v))
+		}
+		if ix.IsZero() != (x.Sign() == 0) || ix.Sign() != x.Sign() || ix.IsNegative() != (x.Sign() < 0) || ix.IsPositive() != (x.Sign() > 0) {
+			rep.Violate("C18", "int-wrong/sign-predicates", fmt.Sprintf("sign predicates of Int(%v) disagree with big.Int", x))
+		}
+		if d := ix.ToDec(); d.Int.Cmp(new(big.Int).Mul(x, prec)) != 0 {
+			rep.Violate("C18", "int-wrong/ToDec", fmt.Sprintf("Int(%v).ToDec() = %v", x, d))
+		}
 	}
 	// constructor bound
 	if r.Chance(5) {
@@ -273,7 +320,9 @@ func GenDecInt(r *sim.Rand) *big.Int {
 
 // tiePair constructs (N, D) such that N*10^36/D truncates to exactly K*10^18 + 5*10^17 (or + 0) with a non-zero remainder:
 // the inputs on which a quotient truncated at 36 digits and then rounded differs from rounding the exact rational.
-func tiePair(r *sim.Rand, wantZero bool) (*big.Int, *big.Int, bool) { return tiePairMode(r, wantZero, false) }
+func tiePair(r *sim.Rand, wantZero bool) (*big.Int, *big.Int, bool) {
+	return tiePairMode(r, wantZero, false)
+}
 
 // tiePairMode with below: the 36-digit truncation ends in ...499999999999999999 (one unit below the tie) with a non-zero
 // remainder: a quotient that is off by one unit at the 36th digit (floor instead of truncation for negative operands)
@@ -325,6 +374,23 @@ func CheckDec(r *sim.Rand, rep Reporter) {
 				b = new(big.Int).Neg(b)
 			}
 		}
+	}
+	if !directed && r.Chance(5) {
+		// products that are exact ties at 18 decimals: a*b = (2K+1) * 5*10^17 with b a divisor of 5*10^17
+		x, y := r.Intn(18), r.Intn(19)
+		d := new(big.Int).Mul(new(big.Int).Exp(two, big.NewInt(int64(x)), nil), new(big.Int).Exp(big.NewInt(5), big.NewInt(int64(y)), nil))
+		b = new(big.Int).Quo(half, d)
+		a = new(big.Int).Mul(big.NewInt(int64(2*r.Intn(40)+1)), d)
+		if r.Chance(40) {
+			a.Neg(a)
+		}
+		if r.Chance(30) {
+			b.Neg(b)
+		}
+		if r.Bool() {
+			a, b = b, a
+		}
+		rep.Count("c18.dec.directed_mul_ties", 1)
 	}
 	if a.BitLen() > 315 {
 		a = new(big.Int).Rsh(a, 8)
@@ -618,6 +684,35 @@ func CheckCoins(r *sim.Rand, rep Reporter) {
 		rep.Violate("C18", "coins-sub-panic-rule", fmt.Sprintf("%s.Sub(%s): negative result %v, panicked %v", sa, sb, neg, pp != nil))
 	} else if !neg && (!eqModel(got, diff) || canonical(got, false) != "") {
 		rep.Violate("C18", "coins-sub-wrong", fmt.Sprintf("%s.Sub(%s) = %s", sa, sb, coinsStr(got)))
+	}
+	// results stay what they were: a result must not share storage with an operand or with another result
+	if r.Chance(25) {
+		A2 := make(sdk.Coins, len(A), len(A)+1+r.Intn(6)) // an operand with spare capacity (what successive Adds produce)
+		copy(A2, A)
+		mk := func(d string) sdk.Coins { return sdk.Coins{sdk.NewCoin(d, sdk.NewInt(1+int64(r.Intn(9))))} }
+		// denominations sorting after / before / between everything in A
+		c1, c2 := mk("zzy"), mk("zzz")
+		if r.Chance(30) {
+			c1, c2 = mk("aa0"), mk("aa1")
+		}
+		var r1, r2 sdk.Coins
+		var s1, s2 string
+		if pp := catch(func() {
+			r1 = A2.Add(c1)
+			s1 = coinsStr(r1)
+			r2 = A2.Add(c2)
+			s2 = coinsStr(r2)
+			_ = r1.Add(c2)
+			_ = A2.Add(c1).Add(c2)
+		}); pp == nil {
+			rep.Count("c18.coins.aliasing_probes", 1)
+			if coinsStr(r1) != s1 || coinsStr(r2) != s2 {
+				rep.Violate("C18", "coins-result-changed-later", fmt.Sprintf("%s.Add(%s) returned %s; after a second Add on the same operand it reads %s", sa, coinsStr(c1), s1, coinsStr(r1)))
+			}
+			if coinsStr(A2) != sa {
+				rep.Violate("C18", "operand-mutated/Coins.Add", fmt.Sprintf("operand %s reads %s after Add", sa, coinsStr(A2)))
+			}
+		}
 	}
 	// comparisons: per-denomination definitions
 	subset := func(x, y cmodel) bool {
